@@ -256,6 +256,11 @@ def run_asyncio(case):
                         await settle()
                 elif op == "feed_nosettle":
                     feed(step[1])
+                elif op == "turns":
+                    # let the server run for exactly k scheduler turns (not until quiescence): the next bytes then arrive in the middle
+                    # of whatever the server is doing - the way real network timing interleaves with its tasks
+                    for _ in range(step[1]):
+                        await asyncio.sleep(0)
                 elif op == "feed_split":
                     data, sizes = step[1], step[2]
                     # the reactive client must not interleave its own frames inside a message that
@@ -266,7 +271,12 @@ def run_asyncio(case):
                             break
                         feed(data[off:off + n])
                         off += n
-                        await loop.quiescent()
+                        if len(step) > 3 and step[3] is not None:
+                            # optional 4th element: scheduler turns granted between the pieces (instead of running to quiescence)
+                            for _ in range(step[3][min(len(step[3]) - 1, max(0, off) % len(step[3]))]):
+                                await asyncio.sleep(0)
+                        else:
+                            await loop.quiescent()
                     if off < len(data):
                         feed(data[off:])
                     await settle()
@@ -513,6 +523,9 @@ def run_trio(case):
                         await settle()
                 elif op == "feed_nosettle":
                     feed(step[1])
+                elif op == "turns":
+                    for _ in range(step[1]):
+                        await trio.lowlevel.checkpoint()
                 elif op == "feed_split":
                     data, sizes = step[1], step[2]
                     # the reactive client must not interleave its own frames inside a message that
@@ -523,7 +536,11 @@ def run_trio(case):
                             break
                         feed(data[off:off + n])
                         off += n
-                        await wait_blocked()
+                        if len(step) > 3 and step[3] is not None:
+                            for _ in range(step[3][min(len(step[3]) - 1, max(0, off) % len(step[3]))]):
+                                await trio.lowlevel.checkpoint()
+                        else:
+                            await wait_blocked()
                     if off < len(data):
                         feed(data[off:])
                     await settle()
